@@ -155,6 +155,29 @@ def _first_diff(x, y):
 ###############################################################################
 # C15
 
+_LEAD_EXTRA = {0x0f: 1, 0xff: 1, 0xfe: 1, 0xfd: 1, 0x0b: 2, 0x0c: 2, 0x0d: 2, 0x0e: 2, 0x1c: 2, 0x1d: 4, 0x1f: 8}
+
+
+def _data_tail_lead(text):
+    """Input-shape classifier (only chooses the violation class, never judges): the line is a DATA statement in
+    which an unquoted byte that elsewhere starts a multi-byte token stands so close to the end of the line that
+    the token's trailing bytes would reach over the line terminator."""
+    t = b(text)
+    if not t.upper().startswith(b'DATA'):
+        return False
+    i, quoted = 4, False
+    while i < len(t):
+        c = t[i]
+        i += 1
+        if c == 0x22:
+            quoted = not quoted
+        elif not quoted and c in _LEAD_EXTRA:
+            i += _LEAD_EXTRA[c]
+            if i > len(t):
+                return True
+    return False
+
+
 FMTS = ('B', 'P', 'A')
 DEVS = ('Z', '@', 'CAS')
 CORPUS = ('COLOURS.BAS', 'FONTSCAN.BAS', 'SHOWDBCS.BAS', 'SHOWFONT.BAS', 'SPEED.BAS', 'PCTERM.BAS', 'ANSIVIEW.BAS')
@@ -268,11 +291,33 @@ def _gen15(rng, tier):
     faulty = rng.random() < 0.6
     nops = rng.randint(2, 6 if quick else 24)
     ops = []
+    touched = []     # [dev, nm] of disk files that a faulted statement was aimed at
+    pending = None   # [dev, nm] of a faulted OPEN that the next transaction should come back to
     for i in range(nops):
         r = rng.random()
         fmt = rng.choice(['B', 'B', 'P', 'P', 'P', 'A', 'A'])
         dev = rng.choice(['Z', 'Z', 'Z', '@', '@', 'CAS', 'CAS'])
         nm = 'F%d' % i
+        if pending is not None and r >= 0.30:
+            # the same name on the same drive, later in the same Session
+            if rng.random() < 0.85:
+                dev, nm = pending
+            pending = None
+        elif touched and dev != 'CAS' and rng.random() < 0.15:
+            dev, nm = rng.choice(touched)
+        if faulty and 0.30 <= r < 0.37:
+            # a data file is opened under a name that a program will later be saved under, and the host open fails
+            at = rng.choice(['open'] * 7 + ['close', 'seek', 'read'])
+            dev = rng.choice(['Z', 'Z', 'Z', '@'])
+            ops.append({'op': 'openfault', 'dev': dev, 'nm': nm, 'mode': rng.choice(['OUTPUT', 'OUTPUT', 'APPEND', 'RANDOM']),
+                        'num': rng.choice([1, 1, 2, 15]), 'at': at, 'nth': rng.choice([1, 1, 1, 2, 2, 3]),
+                        'errno': rng.choice([errno.EACCES, errno.EMFILE, errno.EIO, errno.ENOSPC]),
+                        'data': rng.random() < 0.5, 'then': rng.choice(['CLOSE', 'CLOSE', 'RESET', 'CLOSE #', None])})
+            touched.append([dev, nm])
+            pending = [dev, nm]
+            if rng.random() < 0.25:
+                ops.append(_settle_op(rng, touched))
+            continue
         if r < 0.14 and src in ('lines', 'raw'):
             if rng.random() < 0.25 and nums:
                 ops.append({'op': 'edit', 'line': str(rng.choice(nums))})
@@ -287,14 +332,25 @@ def _gen15(rng, tier):
             else:
                 n = rng.choice([0, 1, 2, 3, 10, 11, 12, 13, 14, 142, 143, 144, 286, rng.randint(0, 700)])
                 ops.append({'op': 'cipher', 'kind': 'rand', 'data': ''.join(chr(rng.randint(0, 255)) for _ in range(n))})
-        elif r < 0.48 and faulty:
-            at = rng.choice(['open', 'write', 'write', 'write', 'write', 'close', 'close'])
+        elif r < 0.50 and faulty:
+            at = rng.choice(['open', 'write', 'write', 'write', 'write', 'close', 'close', 'close', 'flush'])
             op = {'op': 'savefault', 'fmt': fmt, 'dev': dev, 'nm': nm, 'at': at,
                   'nth': 1 if at != 'write' else rng.choice([1, 1, 1, 2, 2, 3, rng.randint(1, 20), rng.randint(1, 200)]),
                   'errno': rng.choice([errno.ENOSPC, errno.ENOSPC, errno.EIO, errno.EACCES, errno.EROFS, errno.EDQUOT, errno.ENXIO, 131])}
             if at == 'write' and rng.random() < 0.4:
                 op['torn'] = rng.randint(0, 3)
+            if at == 'write' and rng.random() < 0.3:
+                # counted from the last host write of this SAVE (0 = the end-of-file mark written at close)
+                del op['nth']
+                op['back'] = rng.choice([0, 0, 1, 2])
+            if at in ('close', 'flush'):
+                # what a buffered host file holds when its last flush fails: a prefix (mostly nothing) of what was written
+                op['keep'] = rng.choice([0, 0, 0, rng.randint(0, 1000)])
             ops.append(op)
+            if dev != 'CAS':
+                touched.append([dev, nm])
+            if rng.random() < 0.2:
+                ops.append(_settle_op(rng, touched))
         elif r < 0.66 and faulty:
             op = {'op': 'torn', 'fmt': fmt, 'dev': dev, 'nm': nm, 'how': 'LOAD'}
             q = rng.random()
@@ -314,7 +370,17 @@ def _gen15(rng, tier):
                     rn = sorted(set(rn) | {rng.choice(nums)})
                 op['resident'] = ['%d %s' % (n, _canon_stmt(rng, nums)) for n in rn]
             ops.append(op)
+    if faulty and ops[-1]['op'] != 'settle':
+        # faults have stopped for good
+        ops.append(_settle_op(rng, touched))
     return {'machine': NAME, 'prop': 'C15', 'cfg': cfg, 'ops': ops}
+
+
+def _settle_op(rng, touched):
+    fmts = list(FMTS)
+    rng.shuffle(fmts)
+    tg = [list(t) for t in touched[-2:]] or [['Z', 'F0']]
+    return {'op': 'settle', 'then': rng.choice(['CLOSE', 'CLOSE', 'RESET', None]), 'targets': tg, 'fmts': fmts[:rng.randint(1, 3)]}
 
 
 class S15(object):
@@ -339,6 +405,8 @@ class S15(object):
         self.ncrash = 0
         self.tape = 0
         self.tape_dirty = False
+        self.maybe_open = set()   # (dev, nm) of data files the model knows to be open in this Session
+        self.nfaults = 0          # injected faults that fired so far
 
     # -- plumbing -------------------------------------------------------------
 
@@ -348,6 +416,7 @@ class S15(object):
     def open_session(self):
         self.d = _mk(self.w, self.root, self.sk, tape=self.tape)
         self.bound = set()
+        self.maybe_open = set()
 
     def use(self, dev):
         """Before a transaction on the cassette: if an earlier op left the tape in the middle of a file or
@@ -430,7 +499,12 @@ class S15(object):
 
     def save(self, fmt, dev, nm):
         suffix = {'B': b'', 'P': b',P', 'A': b',A'}[fmt]
-        return self.d.exec(b'SAVE "' + self.bname(dev, nm) + b'"' + suffix)
+        name = self.bname(dev, nm)
+        if (dev, nm) in self.maybe_open:
+            # a data file that an earlier op opened under this very name and left open: SAVE would rightly be refused
+            self.d.exec(b'CLOSE')
+            self.maybe_open.clear()
+        return self.d.exec(b'SAVE "' + name + b'"' + suffix)
 
     def load(self, dev, nm, how='LOAD'):
         return self.d.exec(b(how) + b' "' + self.bname(dev, nm) + b'"')
@@ -470,7 +544,7 @@ class S15(object):
         if self.img is not None and self.start is not None:
             st, img = self.snap()
             if img != self.img:
-                self.v('image-differs:B:Z:same-session', 'after %s, reloading the tokenised copy gave a different image '
+                self.v(self.img_sig('B', 'Z', ':same-session'), 'after %s, reloading the tokenised copy gave a different image '
                        '(first difference at %d)\nwant %s\ngot  %s' % (why, _first_diff(img, self.img), _hexs(self.img), _hexs(img)))
 
     # -- building the program -------------------------------------------------
@@ -523,6 +597,13 @@ class S15(object):
             return True
         return False
 
+    def img_sig(self, fmt, dev, tag):
+        """Violation class of a tokenised/protected reload that gives another image."""
+        if self.src in ('lines', 'raw') and any(_data_tail_lead(t) for t in self.lines.values()):
+            # one cause, whatever the device and the history: keep it in a class of its own
+            return 'image-differs:data-line-ends-in-token-lead-byte:%s' % fmt
+        return 'image-differs:%s:%s%s' % (fmt, dev, tag)
+
     def listing(self, lines=None):
         lines = self.lines if lines is None else lines
         return b''.join(b'%d %s\r\n' % (n, b(lines[n])) for n in sorted(lines))
@@ -551,7 +632,7 @@ class S15(object):
             st, img = self.snap()
             self.run.probe('image_compared')
             if img != before_img:
-                self.v('image-differs:%s:%s%s' % (fmt, dev, tag),
+                self.v(self.img_sig(fmt, dev, tag),
                        'program memory after SAVE(%s)/restart/LOAD on %s differs from before; lengths %d/%d, first difference at %d\n'
                        'before %s\nafter  %s' % (fmt, dev, len(before_img), len(img), _first_diff(img, before_img),
                                                 _hexs(before_img[max(0, _first_diff(img, before_img) - 8):]),
@@ -644,7 +725,22 @@ class S15(object):
         before_list = self.canon_listing(fmt)
         name = self.bname(dev, nm)   # binds before the fault is armed
         sub = os.path.basename(self.host(dev, nm))
-        self.fs.arm(op['at'], nth=op['nth'], err=op['errno'], path_sub=sub, torn=op.get('torn'))
+        nth = op.get('nth', 1)
+        if 'back' in op:
+            # scheduling only: count the host writes of this very SAVE in a fault-free rehearsal on another name
+            n0 = self.fs.counts['write']
+            r0 = self.attempt(self.claimed(fmt), lambda: self.save(fmt, 'Z', 'REHEARSE'), 'SAVE,A')
+            nth = max(1, self.fs.counts['write'] - n0 - op['back'])
+            if os.path.exists(self.root + '/z/REHEARSE.BAS'):
+                os.remove(self.root + '/z/REHEARSE.BAS')
+            if r0 is None:
+                return
+            if dev == 'CAS':
+                nth = 1
+        self.fs.arm(op['at'], nth=nth, err=op['errno'], path_sub=sub, torn=op.get('torn'))
+        if op['at'] == 'flush':
+            # the medium stays unwritable until the statement is over
+            self.fs.arm('close', nth=1, err=op['errno'], path_sub=sub)
         nfired = len(self.fs.fired)
         kind = '%s:%s' % (op['at'], errno.errorcode.get(op['errno'], op['errno']))
         try:
@@ -655,13 +751,17 @@ class S15(object):
                 self.attempt(False, lambda: (_ for _ in ()).throw(e), 'SAVE,A')
                 return
             e.exc_msg += ' [SAVE format %s to %s with injected %s]' % (fmt, dev, kind)
+            self.nfaults += len(self.fs.fired) - nfired
             self.run.state('savefault', fmt, dev, self.src, 'crash', op['at'])
             self.crashed(e)
             return
         finally:
             self.fs.disarm()
         fired = len(self.fs.fired) > nfired
-        self.run.state('savefault', fmt, dev, self.src, fired, r.err, op['at'])
+        self.nfaults += len(self.fs.fired) - nfired
+        self.run.state('savefault', fmt, dev, self.src, fired, r.err, op['at'], 'back' in op)
+        if dev != 'CAS' and 'keep' in op and any(k == 'close' for k, _, _ in self.fs.fired[nfired:]):
+            self.lose_buffer(self.host(dev, nm), op['keep'])
         if not fired:
             # the planned call never happened: this was an ordinary save
             self.run.probe('savefault_not_fired')
@@ -693,6 +793,114 @@ class S15(object):
         self.restart()
         self.resync('reported save fault')
         self.op_rt({'op': 'rt', 'fmt': fmt, 'dev': dev, 'nm': nm + 'R', 'how': 'LOAD'}, tag=':retry-after-fault')
+
+    def lose_buffer(self, path, keep):
+        """The host reported an error from close(): what was still buffered never reached the medium. The
+        simulated file object passes everything through before it reports the error, so cut the file here
+        to the prefix (in permille of what was written) that did get out."""
+        if not os.path.isfile(path):
+            return
+        data = _read(path)
+        n = len(data) * keep // 1000
+        _write(path, data[:n])
+        self.run.fault('close-loses-buffer')
+        self.w.log.add('lose', os.path.basename(path), n, len(data))
+
+    def op_openfault(self, op):
+        """OPEN of a data file fails inside the host; no claim about the data file. What matters is that the
+        name stays usable for programs afterwards (op_rt on the same name, op_settle)."""
+        dev, nm, num = op['dev'], op['nm'], op.get('num', 1)
+        if dev not in ('Z', '@'):
+            return
+        name = self.bname(dev, nm)
+        sub = os.path.basename(self.host(dev, nm))
+        self.fs.arm(op['at'], nth=op['nth'], err=op['errno'], path_sub=sub)
+        nfired = len(self.fs.fired)
+        kind = '%s:%s' % (op['at'], errno.errorcode.get(op['errno'], op['errno']))
+        line = b'OPEN "%s" FOR %s AS %d' % (name, b(op['mode']), num)
+        if op['mode'] == 'RANDOM':
+            line = b'OPEN "R",%d,"%s",32' % (num, name)
+        try:
+            try:
+                r = self.d.exec(line)
+            finally:
+                self.fs.disarm()
+            fired = len(self.fs.fired) > nfired
+            self.nfaults += len(self.fs.fired) - nfired
+            if r.err is None:
+                self.maybe_open.add((dev, nm))
+                if op.get('data') and op['mode'] != 'RANDOM':
+                    self.d.exec(b'PRINT#%d,"DATA";1' % num)
+            then = op.get('then')
+            if then:
+                r2 = self.d.exec(b(then) + (b'%d' % num if then.endswith('#') else b''))
+                if r2.err is None:
+                    self.maybe_open.clear()
+        except EngineCrash as e:
+            e.exc_msg += ' [%s with injected %s, then %s]' % (line.decode('latin-1'), kind, op.get('then'))
+            self.run.state('openfault', dev, op['mode'], op['at'], 'crash')
+            self.crashed(e)
+            return
+        self.run.state('openfault', dev, op['mode'], op['at'], op['nth'], fired, r.err, op.get('then'))
+        if fired:
+            self.run.probe('openfault_fired')
+
+    def op_settle(self, op):
+        """Bounded liveness. All injected faults are disarmed; files are closed. From here on, in the very
+        Session that saw the faults, SAVE under each name that a faulted statement was aimed at must succeed in
+        every format, and LOAD (in a second Session on the same tree) must give the program back."""
+        self.fs.disarm()
+        self.ensure_img()
+        if self.start is None:
+            return
+        if op.get('then'):
+            r = self.d.exec(b(op['then']))
+            if r.err is None:
+                self.maybe_open.clear()
+        tag = ':after-faults-stopped'
+        for dev, nm in op.get('targets', []):
+            if dev not in ('Z', '@'):
+                continue
+            for fmt in op.get('fmts', FMTS):
+                before_img = self.ensure_img()
+                before_list = self.canon_listing(fmt)
+                r = self.attempt(self.claimed(fmt), lambda: self.save(fmt, dev, nm), 'SAVE,A')
+                if r is None:
+                    return
+                self.run.state('settle', fmt, dev, self.src, r.err, self.nfaults > 0, self.size_bucket())
+                if r.err is not None:
+                    self.v('save-error:%s:%s%s' % (fmt, dev, tag), 'no fault armed, files closed (%s), %d injected fault(s) earlier in this Session\'s history: '
+                           'SAVE (format %s) to %s reports %r' % (op.get('then'), self.nfaults, fmt, self.bname(dev, nm), r))
+                    continue
+                # verify from a second Session; the one that saw the faults stays as it is
+                mine = (self.d, self.bound, self.maybe_open)
+                self.d = _mk(self.w, self.root, self.sk, tape=998)
+                self.bound, self.maybe_open = set(), set()
+                try:
+                    vop = {'fmt': fmt, 'dev': dev, 'nm': nm, 'how': 'LOAD'}
+                    if fmt == 'A' and self.canon and before_list is None:
+                        ok = None
+                    else:
+                        r2 = self.attempt_other(self.claimed(fmt), lambda: self.load(dev, nm))
+                        ok = None if r2 is None else self.check_loaded(vop, r2, before_img, before_list, tag)
+                    try:
+                        self.d.close()
+                    except EngineCrash:
+                        pass
+                finally:
+                    self.d, self.bound, self.maybe_open = mine
+                self.run.probe('settled')
+
+    def attempt_other(self, claimed, fn):
+        """Like attempt(), for the verifying Session of op_settle: nothing to recover."""
+        try:
+            return fn()
+        except EngineCrash as e:
+            if claimed:
+                raise
+            self.run.violate('C01', 'crash:' + e.signature, 'during C15 history (LOAD of ASCII file of a non-canonical program): %s: %s' % (e.exc_type, e.exc_msg))
+            self.run.probe('crash_unclaimed')
+            return None
 
     def op_torn(self, op):
         fmt, dev, nm = op['fmt'], op['dev'], op['nm']
@@ -947,7 +1155,8 @@ def _ifc_stmt(rng):
     if k == 2:
         return 'llist', rng.choice(['LLIST', 'LLIST %d-' % ln, 'LLIST 10-900'])
     if k == 3:
-        return 'save-dev', rng.choice(['SAVE "SCRN:",A', 'SAVE "LPT1:",A', 'SAVE "CAS1:SA",A', 'SAVE "CAS1:SB"', 'SAVE "LPT1:"'])
+        return 'save-dev', rng.choice(['SAVE "SCRN:",A', 'SAVE "LPT1:",A', 'SAVE "CAS1:SA",A', 'SAVE "CAS1:SB"', 'SAVE "LPT1:"', 'SAVE "SCRN:"',
+                                       'X=1:SAVE "LPT1:",A', 'SAVE "lpt1:",a'])
     if k == 4:
         return 'peek', rng.choice(['PRINT PEEK(%d)', 'A=PEEK(%d)', 'DEF SEG:T$=CHR$(PEEK(%d))', 'DEF SEG=0:A=PEEK(%d)', '?PEEK(%d);PEEK(%d)']).replace('%d', str(rng.randint(0, 65535)))
     if k == 5:
@@ -975,7 +1184,18 @@ def _ifc_stmt(rng):
 def _misc_stmt(rng):
     """(kind, line, effect, vars): statements with no demanded outcome."""
     ln = rng.choice(PROG_LINES)
-    k = rng.randrange(23)
+    k = rng.randrange(27)
+    if k in (23, 24):
+        # SAVE in protected form aimed at every kind of device: whatever the statement answers, nothing readable
+        # may arrive at the printer, the screen, the tape or a file (devices that are not files take no file format)
+        return 'save-dev-p', rng.choice(['SAVE "LPT1:",P', 'SAVE "LPT1:",P', 'SAVE "SCRN:",P', 'SAVE "CAS1:SP",P', 'SAVE "COM1:",P', 'SAVE "KYBD:",P',
+                                         'SAVE "lpt1:",p', 'X=1:SAVE "LPT1:",P', 'SAVE "Z:S3.BAS",P', 'SAVE "COM1:",A', 'SAVE "COM1:"', 'SAVE "KYBD:",A']), None, []
+    if k in (25, 26):
+        # values that an unprotected loader handed over in COMMON (op chainload)
+        return 'print-common', rng.choice([
+            'PRINT L1$;L2$;L3$;L4$', 'PRINT L1$', 'LPRINT L2$;L3$', 'T$=MID$(L1$,%d,%d):PRINT T$' % (rng.randint(1, 200), rng.randint(1, 255)),
+            'OPEN "Z:D2.DAT" FOR OUTPUT AS 1:PRINT#1,L1$;L2$;L3$:CLOSE', 'OPEN "Z:D3.DAT" FOR OUTPUT AS 1:WRITE#1,L1$,L3$:CLOSE',
+            'T$=L2$+"":S$=L3$', 'PRINT LEN(L1$);LEN(L2$);N%', 'OPEN "SCRN:" FOR OUTPUT AS 1:PRINT#1,L1$:CLOSE']), None, ['L1$', 'L2$', 'L3$', 'L4$', 'T$', 'S$']
     if k == 22:
         # an image of the protection flag byte, made in an ordinary session: loading it is another way to write the flag
         return 'bload-flag', rng.choice(['DEF SEG:BLOAD "Z:FLAG0.BIN"', 'DEF SEG:BLOAD "Z:FLAG0.BIN",1450', 'X=1:DEF SEG:BLOAD "Z:FLAG0.BIN":LIST']), None, []
@@ -1086,10 +1306,38 @@ def _gen16(rng, tier):
                 else:
                     ops.append({'op': 'stmt', 'kind': 'save-dev', 'line': rng.choice(['SAVE "SCRN:",A', 'SAVE "LPT1:",A']), 'via': 'exec', 'exp': 'ifc', 'vars': []})
 
-    load_op()
+    def chain_op():
+        # an unprotected loader puts string literals into variables, declares them COMMON (or chains with ALL) and
+        # CHAINs to the protected file; literal lengths and filler lines move the literals over the loader's code area
+        names = ['L1$', 'L2$', 'L3$', 'L4$']
+        vs = []
+        for nmv in names[:rng.randint(1, 4)]:
+            q = rng.random()
+            ln_ = rng.choice([rng.randint(1, 30), rng.randint(30, 120), rng.randint(120, 235), 235])
+            lit = ''.join(rng.choice('abcdefghijklmnopqrstuvwxyz') for _ in range(ln_))
+            vs.append([nmv, 'lit' if q < 0.7 else 'expr' if q < 0.85 else 'copy', lit])
+        src = 'P'
+        if faulty and rng.random() < 0.2:
+            ops.append({'op': 'tear', 'permille': rng.randint(0, 1000)})
+            src = 'T'
+        ops.append({'op': 'chainload', 'vars': vs, 'all': rng.random() < 0.3, 'fill': [rng.randint(0, 60) for _ in range(rng.randint(0, 4))],
+                    'line': rng.choice([None, None, None, 60, 10]), 'src': src, 'nm': 'LD%d' % rng.randint(1, 2),
+                    'via': rng.choice(['exec', 'exec', 'type']), 'brk': brk()})
+        for _ in range(rng.randint(1, 3)):
+            kind, line, eff, vv = _misc_stmt(rng)
+            while kind != 'print-common':
+                kind, line, eff, vv = _misc_stmt(rng)
+            ops.append({'op': 'stmt', 'kind': kind, 'line': line, 'via': via(line), 'exp': None, 'eff': eff, 'vars': vv})
+
+    if rng.random() < 0.15:
+        chain_op()
+    else:
+        load_op()
     while len(ops) < nops:
         r = rng.random()
-        if r < 0.46:
+        if r < 0.05:
+            chain_op()
+        elif r < 0.46:
             kind, line = _ifc_stmt(rng)
             ops.append({'op': 'stmt', 'kind': kind, 'line': line, 'via': via(line), 'exp': 'ifc', 'vars': ['T$'] if 'T$' in line else []})
         elif r < 0.56:
